@@ -242,34 +242,24 @@ theorem assignOnParent_ok (ps : List Dev) (pi si : Nat) (ps' : List Dev)
           rcases nextAssignable_active _ _ _ hn with ⟨hk, hact⟩
           exact ⟨par, k, rfl, h0, hk, hact, h.symm⟩
 
-/-- Which panics `assignOnParent` can raise when the parent exists and has an open port. -/
-theorem assignOnParent_panic (ps : List Dev) (pi si : Nat) (w : String) (par : Dev)
-    (hfind : ps.find? (fun p => p.index == pi) = some par) (hopen : 1 ≤ par.ports.openPorts)
-    (h : assignOnParent ps pi si = .panic w) : w = "no free ports on parent" := by
+/-- `assignOnParent` cannot panic when the parent exists and has an open port. -/
+theorem assignOnParent_no_panic (ps : List Dev) (pi si : Nat) (w : String) (par : Dev)
+    (hfind : ps.find? (fun p => p.index == pi) = some par) (hopen : 1 ≤ par.ports.openPorts) :
+    assignOnParent ps pi si ≠ .panic w := by
+  intro h
   unfold assignOnParent at h
   rw [hfind] at h
   simp only at h
   by_cases h0 : si = 0
-  · simp [h0] at h; exact h.symm
+  · simp [h0] at h
   · rw [if_neg h0] at h
     unfold Ports.assignNext at h
     rcases entryPort_ok _ hopen with ⟨e, he, _⟩
     rw [he] at h
     simp only at h
     cases hn : par.ports.nextAssignable e.1 with
-    | none => rw [hn] at h; simp at h; exact h.symm
+    | none => rw [hn] at h; simp at h
     | some k => rw [hn] at h; simp at h
-
-theorem assignOnParent_not_err (ps : List Dev) (pi si : Nat) (e : Err) : assignOnParent ps pi si ≠ .err e := by
-  unfold assignOnParent
-  intro h
-  repeat' (split at h)
-  all_goals first | (cases h; done) | skip
-  all_goals (rename_i h1 h2; unfold Ports.assignNext at h2; repeat' (split at h2)) 
-  all_goals first | (cases h2; done) | skip
-  all_goals (rename_i h3; unfold Ports.entryPort at h3; split at h3 <;> cases h3)
-
-
 
 /-! ### findParent -/
 
@@ -596,14 +586,15 @@ theorem good_setDownstream (par : Dev) (k : Nat) (v : Option Nat) (h : Good par)
   show 1 ≤ (par.ports.setDownstream k v).openPorts
   rw [openPorts_setDownstream]; exact h.1
 
-theorem assignLoop_panic_only_nofree (m : Mode) (rest : List Dev) :
+theorem assignLoop_no_panic (m : Mode) (rest : List Dev) :
     ∀ (ps : List Dev) (accum : Nat) (w : String),
     (∀ d ∈ ps, Good d) → (∀ d ∈ rest, Good d) → Indexed ps.length rest →
-    assignLoop m ps accum rest = .panic w → w = "no free ports on parent" := by
+    assignLoop m ps accum rest ≠ .panic w := by
   induction rest with
   | nil => intro ps accum w _ _ _ h; simp [assignLoop] at h
   | cons sd rest ih =>
     intro ps accum w hps hrest hidx h
+    exfalso
     have hsd : Good sd := hrest sd (List.mem_cons_self ..)
     have hrest' : ∀ d ∈ rest, Good d := fun d hd => hrest d (List.mem_cons_of_mem _ hd)
     rcases hidx with ⟨hi, hidx'⟩
@@ -643,8 +634,7 @@ theorem assignLoop_panic_only_nofree (m : Mode) (rest : List Dev) :
       have hparmem : par ∈ ps := List.mem_of_find?_eq_some hfind
       cases ha : assignOnParent ps pd.index sd.index with
       | panic w' =>
-        rw [ha] at h; simp at h; subst h
-        exact assignOnParent_panic ps pd.index sd.index w' par hfind (hps par hparmem).1 ha
+        exact assignOnParent_no_panic ps pd.index sd.index w' par hfind (hps par hparmem).1 ha
       | err e => rw [ha] at h; simp at h
       | ok ps' =>
         rw [ha] at h
@@ -830,5 +820,44 @@ theorem latchOne_fields (i : Nat) (r : Report) : (latchOne i r).index = i ∧ (l
 theorem devOfReport_fields (i : Nat) (r : Report) : (devOfReport i r).index = i ∧ (devOfReport i r).dc = r.dc := by
   simp [devOfReport]
 
+
+/-! ### the up-front validation of `assign_parent_relationships` -/
+
+theorem assign_eq_loop (m : Mode) (devs : List Dev) (h : ∀ d ∈ devs, 1 ≤ d.ports.openPorts) :
+    assignParentRelationships m devs = assignLoop m [] 0 devs := by
+  unfold assignParentRelationships
+  have : devs.any (fun d => d.ports.openPorts == 0) = false := by
+    rw [List.any_eq_false]
+    intro d hd
+    have := h d hd
+    simp; omega
+  simp [this]
+
+theorem assign_cases (m : Mode) (devs : List Dev) :
+    assignParentRelationships m devs = .err .topology ∨
+    ((∀ d ∈ devs, 1 ≤ d.ports.openPorts) ∧ assignParentRelationships m devs = assignLoop m [] 0 devs) := by
+  by_cases h : ∀ d ∈ devs, 1 ≤ d.ports.openPorts
+  · exact Or.inr ⟨h, assign_eq_loop m devs h⟩
+  · left
+    unfold assignParentRelationships
+    have : devs.any (fun d => d.ports.openPorts == 0) = true := by
+      rw [List.any_eq_true]
+      have h' : ∃ d, d ∈ devs ∧ ¬ 1 ≤ d.ports.openPorts := by
+        apply Classical.byContradiction
+        intro hn
+        apply h
+        intro d hd
+        apply Classical.byContradiction
+        intro hc
+        exact hn ⟨d, hd, hc⟩
+      rcases h' with ⟨d, hd, hc⟩
+      exact ⟨d, hd, by simp; omega⟩
+    simp [this]
+
+theorem assign_ok_loop (m : Mode) (devs out : List Dev) (h : assignParentRelationships m devs = .ok out) :
+    assignLoop m [] 0 devs = .ok out := by
+  rcases assign_cases m devs with he | ⟨_, hl⟩
+  · rw [he] at h; cases h
+  · rw [← hl]; exact h
 
 end Ec.Dc
